@@ -32,6 +32,25 @@ Check c08_fetch_literal_opaque : forall n wn k kf ds content sp rest,
         (nlen (bs "* " ++ wn ++ k ++ [40] ++ (kf ++ ([123] ++ ds ++ [125; 13; 10] ++ content)) ++ [] ++ [41] ++ sp ++ [13; 10])).
 Print Assumptions c08_fetch_literal_opaque.
 
+(* the same for BODY[section]<origin>, every section form (empty, HEADER, HEADER.FIELDS[.NOT] (names), TEXT, part paths
+   with or without .HEADER / .TEXT / .MIME) and with or without an origin octet *)
+Theorem c08_body_section_literal_opaque : forall n wn k kb sec wsec idx widx ds content sp rest,
+  enc_number 32 n wn -> kw " FETCH " k -> kw "BODY" kb -> enc_section sec wsec -> enc_origin idx widx -> enc_spaces sp ->
+  ds <> [] -> forallb rfc_DIGIT ds = true -> dec ds = nlen content -> dec ds < 2 ^ 32 -> forallb rfc_CHAR8 content = true ->
+  parse ((bs "* " ++ wn ++ k ++ [40] ++ (kb ++ wsec ++ widx ++ SPb ++ ([123] ++ ds ++ [125; 13; 10] ++ content)) ++ [] ++ [41] ++ sp ++ [13; 10]) ++ rest)
+  = ROk rest (VCon "Response::Fetch" [VNum n; VList [VRec "AttributeValue::BodySection"
+                 [("section"%string, sec); ("index"%string, idx); ("data"%string, VSome (VBytes content))]]])
+        (nlen (bs "* " ++ wn ++ k ++ [40] ++ (kb ++ wsec ++ widx ++ SPb ++ ([123] ++ ds ++ [125; 13; 10] ++ content)) ++ [] ++ [41] ++ sp ++ [13; 10])).
+Proof. exact body_section_literal_opaque. Qed.
+Check c08_body_section_literal_opaque : forall n wn k kb sec wsec idx widx ds content sp rest,
+  enc_number 32 n wn -> kw " FETCH " k -> kw "BODY" kb -> enc_section sec wsec -> enc_origin idx widx -> enc_spaces sp ->
+  ds <> [] -> forallb rfc_DIGIT ds = true -> dec ds = nlen content -> dec ds < 2 ^ 32 -> forallb rfc_CHAR8 content = true ->
+  parse ((bs "* " ++ wn ++ k ++ [40] ++ (kb ++ wsec ++ widx ++ SPb ++ ([123] ++ ds ++ [125; 13; 10] ++ content)) ++ [] ++ [41] ++ sp ++ [13; 10]) ++ rest)
+  = ROk rest (VCon "Response::Fetch" [VNum n; VList [VRec "AttributeValue::BodySection"
+                 [("section"%string, sec); ("index"%string, idx); ("data"%string, VSome (VBytes content))]]])
+        (nlen (bs "* " ++ wn ++ k ++ [40] ++ (kb ++ wsec ++ widx ++ SPb ++ ([123] ++ ds ++ [125; 13; 10] ++ content)) ++ [] ++ [41] ++ sp ++ [13; 10])).
+Print Assumptions c08_body_section_literal_opaque.
+
 (* every literal-capable position covered by the round-trip theorem (envelope and address strings, the RFC822 items):
    the general statement is c03_fetch_roundtrip with enc_literal at that position; enc_literal admits every content *)
 Theorem c08_any_content_is_a_literal : forall content, nlen content < 2 ^ 32 -> forallb rfc_CHAR8 content = true ->
@@ -45,6 +64,14 @@ Theorem c08_positions_with_literals : forall v w, enc_fetch v w -> forall rest, 
 Proof. exact fetch_roundtrip. Qed.
 Check c08_positions_with_literals : forall v w, enc_fetch v w -> forall rest, parse (w ++ rest) = ROk rest v (nlen w).
 Print Assumptions c08_positions_with_literals.
+
+(* and outside FETCH: every string position of the other response kinds of Spec.enc_response (mailbox names in STATUS /
+   LIST / LSUB / ACL / LISTRIGHTS / MYRIGHTS, quota roots and resource names, ACL identifiers and rights, header-field
+   names) admits enc_literal with any content *)
+Theorem c08_positions_with_literals_any : forall v w, enc_response v w -> forall rest, parse (w ++ rest) = ROk rest v (nlen w).
+Proof. exact response_roundtrip. Qed.
+Check c08_positions_with_literals_any : forall v w, enc_response v w -> forall rest, parse (w ++ rest) = ROk rest v (nlen w).
+Print Assumptions c08_positions_with_literals_any.
 
 (* LISTED FINDING (known_findings.txt, class resp-code-literal-fallback): the statement of C08 fails at one kind of
    position -- a literal inside a bracketed response code whose content is not UTF-8.  The witness, on the model
